@@ -300,7 +300,13 @@ fn batch_of(rng: &mut Rng, schema: &Arc<Schema>, n: usize) -> RecordBatch {
 
 fn coalescer_history(rng: &mut Rng, t: &mut Shards, types: &[DataType], steps: usize) {
     let ncols = 1 + rng.below(3);
-    let fields: Vec<Field> = (0..ncols).map(|i| Field::new(format!("c{i}"), rng.pick(types).clone(), true)).collect();
+    // half of the histories use only the types with a specialised in-progress array
+    // (primitive, Utf8View, BinaryView: arrow-select/src/coalesce/{primitive,byte_view}.rs)
+    let specialised = [DataType::Utf8View, DataType::BinaryView, DataType::Int32, DataType::Utf8View, DataType::Float64, DataType::BinaryView];
+    let focus = rng.chance(50);
+    let fields: Vec<Field> = (0..ncols)
+        .map(|i| Field::new(format!("c{i}"), if focus { rng.pick(&specialised).clone() } else { rng.pick(types).clone() }, true))
+        .collect();
     // known finding C03-take-ree-null-index is decided on the kernel itself; here null indices are
     // only used when no run-end column would hit it
     let has_ree = fields.iter().any(|f| matches!(f.data_type(), DataType::RunEndEncoded(_, _) | DataType::Union(_, _)));
